@@ -101,6 +101,7 @@ class Engine:
         self.feas_timeout = 2000
         self.stats = {"feasible_calls": 0, "paths": 0}
         self.round_axioms = []
+        self.list_repeat_hook = None
         self.async_faults = []      # e.g. ["KeyboardInterrupt"]: injected before every statement outside `finally`
         self.globals_obj = None     # Ref of the heap object holding the mutable module globals of the function's module
 
@@ -556,7 +557,12 @@ class Engine:
         if isinstance(a, Ref) or isinstance(b, Ref):
             name = {ast.Or: "__or__", ast.BitOr: "__or__", ast.Add: "__add__", ast.Mult: "__mul__"}.get(type(op))
             if isinstance(a, Ref) and isinstance(s.H(a), list) and isinstance(op, ast.Mult):
-                return [(("list-repeat", tuple(s.H(a)), b), s)]
+                if not is_sym(b) and isinstance(b, int):
+                    s = self.fork(s)
+                    return [(s.new_list(list(s.H(a)) * b), s)]
+                if self.list_repeat_hook is None:
+                    raise Unsupported("list * symbolic length")
+                return self.list_repeat_hook(self, s, tuple(s.H(a)), b)
             if isinstance(a, Ref) and isinstance(b, Ref) and isinstance(s.H(a), list) and isinstance(s.H(b), list) and isinstance(op, ast.Add):
                 s = self.fork(s)
                 return [(s.new_list(s.H(a) + s.H(b)), s)]
@@ -700,6 +706,8 @@ class Engine:
                     r = (sv == to_z3(cv)) if (z3.is_bool(sv) == isinstance(cv, bool)) else False
                 else:
                     r = False
+            elif isinstance(a, (ClassV, Fn)) and isinstance(b, (ClassV, Fn)) and (isinstance(a, ClassV) or isinstance(b, ClassV)):
+                r = a.name == b.name
             elif isinstance(a, (int, str, float, bytes, tuple)) and isinstance(b, (int, str, float, bytes, tuple)) and not isinstance(a, bool) and not isinstance(b, bool):
                 r = a == b and type(a) is type(b)
             else:
@@ -780,6 +788,8 @@ class Engine:
                 a = z3.If(a, 1, 0) if z3.is_bool(a) else a
                 b = z3.If(b, 1, 0) if z3.is_bool(b) else b
             return a == b
+        if isinstance(a, ClassV) and isinstance(b, ClassV):
+            return a.name == b.name
         if isinstance(a, (EnumV, ClassV)) or isinstance(b, (EnumV, ClassV)):
             return a is b
         return a == b
